@@ -115,8 +115,8 @@ Lemma stable_submit s a o p w weak k sl htx hftx tm s' :
   ops s o = None -> submit s a o p w weak k sl htx hftx tm = Acc s' -> ops_stable s s'.
 Proof.
   intros Ho H. unfold submit in H. inv_res H; subst s'.
-  - now apply stable_put_op_fresh.
-  - now apply stable_put_op_fresh.
+  - eapply ops_stable_trans; [apply stable_put_op_fresh; exact Ho | apply stable_same_ops; reflexivity].
+  - eapply ops_stable_trans; [apply stable_put_op_fresh; exact Ho | apply stable_same_ops; reflexivity].
   - eapply ops_stable_trans; [apply stable_put_op_fresh; exact Ho | apply stable_same_ops; reflexivity].
 Qed.
 Lemma stable_teardown s a x ex nf s' : teardown s a x ex nf = Acc s' -> ops_stable s s'.
@@ -143,6 +143,9 @@ Ltac st s :=
   | |- ops_stable ?s0 (set_reg _ ?s1) => apply (ops_stable_trans s0 s1); [ | apply stable_same_ops; reflexivity ]; st s
   | |- ops_stable ?s0 (set_rlock _ ?s1) => apply (ops_stable_trans s0 s1); [ | apply stable_same_ops; reflexivity ]; st s
   | |- ops_stable ?s0 (set_rpend _ ?s1) => apply (ops_stable_trans s0 s1); [ | apply stable_same_ops; reflexivity ]; st s
+  | |- ops_stable ?s0 (add_pend _ ?s1) => apply (ops_stable_trans s0 s1); [ | apply stable_same_ops; reflexivity ]; st s
+  | |- ops_stable ?s0 (del_pend _ ?s1) => apply (ops_stable_trans s0 s1); [ | apply stable_same_ops; reflexivity ]; st s
+  | |- ops_stable ?s0 (add_actor _ ?s1) => apply (ops_stable_trans s0 s1); [ | apply stable_same_ops; reflexivity ]; st s
   | |- ops_stable ?s0 (match ?c with _ => _ end) => destruct c eqn:?; st s
   | |- ops_stable ?s0 ?v =>
       match goal with
